@@ -290,6 +290,39 @@ Section Net.
   (* row of the matrix that a constraint on current c must occupy, for the given station order *)
   Definition row_of (sts : list station) (c : current A) : list (option A) :=
     map (fun s => Some (coeff zero c s)) sts.
+
+  (* ---------------- vocabulary of the theorems ---------------- *)
+  (* error outcome of an operation, read off the book-keeping *)
+  Definition spec_err (o : op) (g : ghost) : option string :=
+    let names := map l_name (g_live g) in
+    match o with
+    | ORegister _ _ _ => if g_ever g then Some "EVSERegistrationError"%string else None
+    | OAdd c _ _ => if known (g_stations g) c then None else Some "KeyError"%string
+    | ORemove nm => if nmem nm names then None else Some "KeyError"%string
+    | OUpdate nm c _ _ =>
+        if nmem nm names then (if known (g_stations g) c then None else Some "KeyError"%string)
+        else Some "KeyError"%string
+    end.
+
+  (* two Currents that list the same stations with the same values, in any order *)
+  Definition cur_equiv (c c' : current A) : Prop := forall s, lookup s c = lookup s c'.
+
+  Definition is_constraint_op (o : op) : bool :=
+    match o with OAdd _ _ _ | OUpdate _ _ _ _ => true | _ => false end.
+
+  Definition reg_op (p : station * Q * Q) : op := ORegister (fst (fst p)) (snd (fst p)) (snd p).
+
+  (* the periods selected by time_indices (None = all), or None when numpy raises IndexError *)
+  Definition sel_cols (w : nat) (T : option (list Z)) : option (list nat) :=
+    match T with None => Some (seq 0 w) | Some ts => norm_indices w ts end.
+
+  (* sum_k a_k * x_k *)
+  Fixpoint lin_sum (a x : list A) : A :=
+    match a, x with
+    | u :: a', v :: x' => add (mul u v) (lin_sum a' x')
+    | _, _ => zero
+    end.
+
 End Net.
 
 Arguments net A : clear implicits.
